@@ -2,6 +2,7 @@ SPECIFICATION GSpec
 CONSTANTS NB = 8
           NID = 8
           Wide = TRUE
+          Inners = {"plain", "tq"}
           MaxBatch = 1
           D = 1
           E = 1
